@@ -190,6 +190,11 @@ def check_selection_domain(repo, res, idview):
                     return is_table(local[e.id][0], depth + 1)
                 if isinstance(e, ast.Call) and getattr(e.func, "id", None) in ("list", "enumerate", "iter", "tuple") and e.args:
                     return is_table(e.args[0], depth)
+                if isinstance(e, ast.Call) and isinstance(e.func, ast.Attribute) and e.func.attr in ("items", "keys", "values") and isinstance(e.func.value, ast.Call):
+                    return is_table(e.func.value, depth)
+                if isinstance(e, ast.Call) and isinstance(e.func, ast.Name) and depth < 3 and any(is_table(a, depth + 1) for a in e.args):
+                    # the whole table handed to a helper (`_group_by_members(self._id_dict)`): every ID is examined there
+                    return True
                 return False
 
             for it in [x.iter for x in ast.walk(b.node) if isinstance(x, (ast.For, ast.comprehension))]:
